@@ -39,7 +39,20 @@ pub enum Class {
     CtorAtInt,
     NewAtData,
     LitAtData,
+    /// constructor of a *different* declared type that is instantiated at the same type arguments
+    ForeignCtor,
+    /// all clauses of a case / cocase renamed to the xtors of a different declared type
+    ForeignClauses,
+    /// destructor of a different codata type invoked on the scrutinee
+    ForeignDtor,
 }
+
+/// Classes that need the twin declarations (`TWIN`) in front of the program.
+pub const FOREIGN_CLASSES: [Class; 3] = [Class::ForeignCtor, Class::ForeignClauses, Class::ForeignDtor];
+
+/// Twin types with the same shape as List / Fun, instantiated (by a signature and by use) at the
+/// type arguments the generated programs use most.
+const TWIN: &str = "data TwList[A] { TwNil, TwCons(x: A, xs: TwList[A]) }\ncodata TwFun[A, B] { twap(x: A): B }\ndef tw_use(l: TwList[i64], f: TwFun[i64, i64], ll: TwList[TwList[i64]]): i64 { l.case[i64] { TwNil => f.twap[i64, i64](0), TwCons(x, xs) => ll.case[TwList[i64]] { TwNil => x, TwCons(y, ys) => 1 } } }\n";
 
 pub const CLASSES: [Class; 24] = [
     Class::CallArgMinus,
@@ -216,6 +229,24 @@ fn apply(t: &mut Term, class: Class) -> bool {
         }
         (Class::LitAtData, Term::Let(l)) if matches!(&l.var_ty, Ty::Decl { .. }) => {
             l.bound_term = Rc::new(lit(3));
+            true
+        }
+        (Class::ForeignCtor, Term::Constructor(c)) if c.id == "Nil" || c.id == "Cons" => {
+            c.id = if c.id == "Nil" { "TwNil".into() } else { "TwCons".into() };
+            true
+        }
+        (Class::ForeignClauses, Term::Case(c)) if !c.clauses.is_empty() && c.clauses.iter().all(|cl| cl.xtor == "Nil" || cl.xtor == "Cons") => {
+            for cl in &mut c.clauses {
+                cl.xtor = if cl.xtor == "Nil" { "TwNil".into() } else { "TwCons".into() };
+            }
+            true
+        }
+        (Class::ForeignClauses, Term::New(n)) if n.clauses.len() == 1 && n.clauses[0].xtor == "ap" => {
+            n.clauses[0].xtor = "twap".into();
+            true
+        }
+        (Class::ForeignDtor, Term::Destructor(d)) if d.id == "ap" => {
+            d.id = "twap".into();
             true
         }
         _ => false,
@@ -467,7 +498,7 @@ pub fn check_base(case: &FunCase, rep: &mut Report) {
         }
     }
     // (-) every single certainly-ill-typed edit must be rejected
-    let mut verdict = |label: String, mutant: Program, rep: &mut Report| {
+    let verdict = |label: String, mutant: Program, rep: &mut Report| {
         rep.count("cases", 1);
         rep.count("evaluations", 1);
         let text = mutant.print_to_string(None);
@@ -506,6 +537,32 @@ pub fn check_base(case: &FunCase, rep: &mut Report) {
     for (label, m) in program_level(&parsed) {
         verdict(label.to_string(), m, rep);
     }
+    // foreign xtors: the twin declarations are put in front (so that their instances exist when the
+    // edited term is checked); the twinned program itself must still be accepted
+    if FOREIGN_CLASSES.iter().any(|c| count_sites(&parsed, *c) > 0) {
+        let twinned = match crate::pipeline::parse(&format!("{TWIN}{}", case.src)) {
+            Ok(p) => p,
+            Err(e) => {
+                rep.machinery(format!("{}: twinned program does not parse: {e:?}", case.name));
+                return;
+            }
+        };
+        match guarded("check", || twinned.clone().check()) {
+            Ok(Ok(_)) => {}
+            other => {
+                rep.machinery(format!("{}: twinned program is not accepted: {:?}", case.name, other.map(|r| r.map(|_| ()))));
+                return;
+            }
+        }
+        for class in FOREIGN_CLASSES {
+            let n = count_sites(&twinned, class);
+            for target in 0..n {
+                if let Some(m) = mutate(&twinned, class, target) {
+                    verdict(format!("{class:?}@{target}"), m, rep);
+                }
+            }
+        }
+    }
 }
 
 pub fn worker(ctx: &WorkerCtx) -> Report {
@@ -535,7 +592,7 @@ pub fn worker(ctx: &WorkerCtx) -> Report {
             check_base(&FunCase { name: format!("positive/{i}"), src: src.to_string(), inputs: vec![], sequenced: true }, &mut rep);
         }
     }
-    rep.sample(json!({"classes": CLASSES.iter().map(|c| format!("{c:?}")).collect::<Vec<_>>()}));
+    rep.sample(json!({"classes": CLASSES.iter().chain(FOREIGN_CLASSES.iter()).map(|c| format!("{c:?}")).collect::<Vec<_>>()}));
     rep
 }
 
